@@ -88,7 +88,11 @@ class SumKroneckerLinearOperator(SumLinearOperator):
         test_vectors: Optional[torch.Tensor] = None,
     ) -> Union[Float[LinearOperator, "... N N"], Float[Tensor, "... N N"]]:
         inner_mat = self._sum_formulation
-        lt2_root_inv = self.linear_ops[1].root_inv_decomposition().root
+        # as in _solve: use the very inverse roots that _sum_formulation is built from (the inverse root of the Kronecker
+        # product as a whole may stem from a different factorization)
+        lt2_root_inv = KroneckerProductLinearOperator(
+            *[lt.root_inv_decomposition().root for lt in self.linear_ops[1].linear_ops]
+        )
         inner_mat_root_inv = inner_mat.root_inv_decomposition().root
         inv_root = lt2_root_inv.matmul(inner_mat_root_inv)
         return inv_root
